@@ -239,21 +239,22 @@ type variables []Variable
 
 // freeVariables extracts variables in the given Term.
 func (e *Env) freeVariables(t Term) []Variable {
-	return e.appendFreeVariables(nil, t)
+	return e.appendFreeVariables(nil, map[Variable]struct{}{}, t)
 }
 
-func (e *Env) appendFreeVariables(fvs variables, t Term) variables {
+// appendFreeVariables appends the variables in t that aren't in seen yet, in the order of their first occurrence.
+// Looking them up in fvs itself would make it quadratic to the number of variables.
+func (e *Env) appendFreeVariables(fvs variables, seen map[Variable]struct{}, t Term) variables {
 	switch t := e.Resolve(t).(type) {
 	case Variable:
-		for _, v := range fvs {
-			if v == t {
-				return fvs
-			}
+		if _, ok := seen[t]; ok {
+			return fvs
 		}
+		seen[t] = struct{}{}
 		return append(fvs, t)
 	case Compound:
 		for i := 0; i < t.Arity(); i++ {
-			fvs = e.appendFreeVariables(fvs, t.Arg(i))
+			fvs = e.appendFreeVariables(fvs, seen, t.Arg(i))
 		}
 	}
 	return fvs
